@@ -45,7 +45,8 @@ PROPS = {
     "C11": ("p_c11", "Nsl.Props.C11", [], ["Nsl/Model/Flow.lean", "Nsl/Proofs/Flow.lean", "Nsl/Props/C11.lean"]),
     "C12": ("p_c12", "Nsl.Props.C12", [], ["Nsl/Model/Names.lean", "Nsl/Proofs/Names.lean", "Nsl/Proofs/NamesBinding.lean", "Nsl/Proofs/NamesStatic.lean", "Nsl/Props/C12.lean"]),
     "C13": ("p_c13", "Nsl.Props.C13", [], ["Nsl/Model/Static.lean", "Nsl/Proofs/Static.lean", "Nsl/Props/C13.lean"]),
-    "C14": ("p_c14", "Nsl.Props.C14", ["Nsl.Props.C14Opt"], ["Nsl/Model/WF.lean", "Nsl/Proofs/WF.lean", "Nsl/Props/C14.lean", "Nsl/Model/IR.lean", "Nsl/Model/Opt.lean",
+    "C14": ("p_c14", "Nsl.Props.C14", ["Nsl.Props.C14Opt", "Nsl.Props.LowerWF"], ["Nsl/Proofs/LowerWF1.lean", "Nsl/Proofs/LowerWF2.lean", "Nsl/Proofs/LowerWF3.lean", "Nsl/Proofs/LowerWF4.lean", "Nsl/Props/LowerWF.lean",
+                                               "Nsl/Proofs/LowerLocal1.lean", "Nsl/Proofs/LowerLocal2.lean", "Nsl/Proofs/LowerLocalS1.lean", "Nsl/Proofs/LowerLocalS2.lean", "Nsl/Model/ScalarCore.lean", "Nsl/Model/StorageCore.lean","Nsl/Model/WF.lean", "Nsl/Proofs/WF.lean", "Nsl/Props/C14.lean", "Nsl/Model/IR.lean", "Nsl/Model/Opt.lean",
                                                "Nsl/Proofs/WFBlock.lean", "Nsl/Proofs/WFOpt.lean", "Nsl/Proofs/OptSimBase.lean", "Nsl/Proofs/OptSimPres.lean", "Nsl/Proofs/OptSimPasses.lean", "Nsl/Props/C14Opt.lean"]),
     "C16": ("p_c16", "Nsl.Props.C16", [], ["Nsl/Model/Link.lean", "Nsl/Proofs/Link.lean", "Nsl/Props/C16.lean"]),
     "C17": ("p_c17", "Nsl.Props.C17", [], ["Nsl/Model/VM.lean", "Nsl/Proofs/VMSteps.lean", "Nsl/Props/C17.lean"]),
